@@ -71,7 +71,7 @@ def show(n, ren=None, keep_adjust=False, skip_debug=True):
             fn = n.get("fn") or ""
             if any("macro:Bang:format" in e or "macro:Bang:$crate::format" in e or "format_args" in e for e in (n.get("exp") or [])) and not keep_adjust:
                 return "format!(..)"
-            if "panicking::panic" in fn or fn.endswith("::begin_panic"):
+            if "panicking::panic" in fn or fn.endswith(("::begin_panic", "rt::panic_fmt", "rt::panic_display")):
                 return "panic!()"
             f = short(fn) if fn else "(" + go(n.get("fun")) + ")"
             if fn.endswith(("::expect", "::expect_err")) and len(n["args"]) == 2:
